@@ -344,6 +344,41 @@ pub fn normalize_grid(all: bool, part: u64) -> Vec<String> {
             }
         }
     }
+    // comment collisions: two canonical rules that touch along one dimension (or are equal), each
+    // with one of seven comment forms - none, one comment, a comment that contains ", ", the SAME
+    // text written as two comments (prefix comment + modifier comment, both orders), and near misses:
+    // normalization compares comment sets, printing joins them with ", "
+    {
+        let pairs = [("Mo", "Tu"), ("Jan", "Feb"), ("week 01", "week 02"), ("2020", "2021"), ("Mo 10:00-12:00", "Mo 12:00-14:00"), ("Mo", "Mo")];
+        let with_comment = |sel: &str, kind: &str, form: usize| -> String {
+            let hours = if sel.contains(':') { "" } else { " 10:00-12:00" };
+            match form {
+                0 => format!("{sel}{hours}{kind}"),
+                1 => format!("{sel}{hours}{kind} \"a\""),
+                2 => format!("{sel}{hours}{kind} \"a, b\""),
+                3 => format!("\"b\":{sel}{hours}{kind} \"a\""),
+                4 => format!("\"a\":{sel}{hours}{kind} \"b\""),
+                5 => format!("{sel}{hours}{kind} \"b, a\""),
+                _ => format!("{sel}{hours}{kind} \"a,b\""),
+            }
+        };
+        let mut n = 0u64;
+        for (a, b) in pairs {
+            for fa in 0..7 {
+                for fb in 0..7 {
+                    for sep in seps {
+                        for kind in ["", " unknown", " off"] {
+                            n += 1;
+                            if !all && n % 2 != part % 2 {
+                                continue;
+                            }
+                            v.push(format!("{}{sep}{}", with_comment(a, kind, fa), with_comment(b, kind, fb)));
+                        }
+                    }
+                }
+            }
+        }
+    }
     // triples along one dimension, more cut points
     let fine: [&[&str]; 5] = [
         &["2019-2021", "2020-2024", "2021", "2022-2030", "2024-2026", "2025", "1900-2022", "2023-9999"],
